@@ -157,6 +157,11 @@ pub fn alphabet_texts() -> Vec<&'static str> {
     r#"date and time("2021-01-02T13:00:00+09:00")"#,
     r#"date and time("2021-01-02T04:00:01Z")"#,
     r#"date and time("2021-01-01T22:59:59-05:00")"#,
+    // named zones around the two switches of 2020 (wall-clock times on either side of the other operand's)
+    r#"date and time("2020-10-25T01:30:00Z")"#,
+    r#"date and time("2020-10-25T03:15:00@Europe/Warsaw")"#,
+    r#"date and time("2020-03-29T00:30:00Z")"#,
+    r#"date and time("2020-03-29T03:15:00@Europe/Warsaw")"#,
     r#"time("23:00:00-05:00")"#,
     r#"time("04:00:00Z")"#,
     r#"time("08:00:00Z")"#,
